@@ -41,6 +41,7 @@ class Expander:
         self.max_depth = max_depth
         self._rd: Dict[str, ReachingDefs] = {}
         self._loops: Dict[str, List[ast.AST]] = {}
+        self._carried_cache: Dict[tuple, bool] = {}
         # optional normalisation applied to every expanded tree before it is
         # printed/compared (e.g. `~(a < b)` -> `b <= a`)
         self.post = None
@@ -298,13 +299,31 @@ class Expander:
         walk(xv, None)
         for v, attrs in reads.items():
             d1, d2 = set(rd.reaching(v, dn)), set(rd.reaching(v, use))
-            if d1 == d2:
-                continue
             if v == name:
+                continue
+            # inside a loop the same statement can reach both sites and still change the
+            # value BETWEEN them (hoisted `c = a[i]` followed, later in the loop, by a write
+            # of a[i]): a definition lying on a path definition -> use that does not
+            # re-execute the definition counts as new
+            carried = set()
+            for d in d1 & d2:
+                if d < 0 or d == dn.id:
+                    continue
+                m = rd.node_by_id.get(d)
+                if m is None:
+                    continue
+                key = (id(rd), dn.id, use.id, d)
+                hit = self._carried_cache.get(key)
+                if hit is None:
+                    hit = self._between(rd, dn, m, use)
+                    self._carried_cache[key] = hit
+                if hit:
+                    carried.add(d)
+            if d1 == d2 and not carried:
                 continue
             # definitions that reach the use but not the definition site; the ones
             # that no longer reach were overwritten by these (or lie on other paths)
-            for d in d2 - d1:
+            for d in (d2 - d1) | carried:
                 node = rd.node_by_id.get(d)
                 st = node.ast if node is not None else None
                 if not isinstance(st, (ast.Assign, ast.AugAssign, ast.AnnAssign)) or node.kind != "stmt":
@@ -326,6 +345,23 @@ class Expander:
                 if val2 is not None and any(isinstance(x, ast.Name) and x.id == v and not isinstance(getattr(x, "_parent", None), ast.Attribute) for x in ast.walk(val2)):
                     return False
         return True
+
+    def _between(self, rd, dn, m, use) -> bool:
+        """is there a path dn -> m -> use that never passes dn again?"""
+        from .cfg import paths_avoiding
+
+        cfg = rd.cfg
+        if m.id == use.id:
+            # the use itself re-defines the name (an exchange `a[i], a[j] = c2, c1`): a later
+            # execution of the same statement that does not go through dn again sees the change
+            first = paths_avoiding(cfg, dn, {use.id}, {dn.id}, follow=lambda a, lab, b: lab != "exc")
+            again = paths_avoiding(cfg, use, {use.id}, {dn.id}, follow=lambda a, lab, b: lab != "exc")
+            return first is not None and again is not None
+        first = paths_avoiding(cfg, dn, {m.id}, {dn.id}, follow=lambda a, lab, b: lab != "exc")
+        if first is None:
+            return False
+        second = paths_avoiding(cfg, m, {use.id}, {dn.id}, follow=lambda a, lab, b: lab != "exc")
+        return second is not None
 
     def _rebinds_same(self, node, st, v, fi, bindings, depth, seen) -> bool:
         """`v = <coercion of v>` or an assignment whose expansion is v itself
